@@ -113,6 +113,9 @@ def loop_cases(tier, seed):
             "cap": int(rng.integers(16, 40)),
             "steps": int(rng.integers(40, 80)),
             "generations": int(rng.integers(1, 3)),
+            # populations: every agent's turn starts with an env.reset() while transitions of the previous agent's rollout
+            # are still waiting in the n-step window
+            "pop": 1 + (i % 3),
             "seed": int(rng.integers(1 << 30)),
         }
         out.append(c)
@@ -243,7 +246,9 @@ def run_loop_case(case, rec):
         RainbowDQN.learn = learn
         try:
             steps = int(case["steps"])
-            train_off_policy(env, "c10-loop", "RainbowDQN", [agent], memory, max_steps=steps * int(case["generations"]), evo_steps=steps,
+            pop = [agent] + [agent.clone(index=j) for j in range(1, int(case.get("pop", 1)))]
+            rec.hit("loop_population_members", len(pop))
+            train_off_policy(env, "c10-loop", "RainbowDQN", pop, memory, max_steps=steps * int(case["generations"]), evo_steps=steps,
                              eval_steps=3, eval_loop=1, n_step=True, per=bool(case["per"]), n_step_memory=nmem, tournament=None,
                              mutation=None, wb=False, verbose=False)
         except CaseTimeout:
